@@ -11,6 +11,7 @@ import (
 	"github.com/form3tech-oss/f1/v2/internal/metrics"
 	"math/rand"
 	"os"
+	"os/signal"
 	"sort"
 	"sync"
 )
@@ -84,6 +85,9 @@ func main() {
 	}
 	// what f1.New() does first: the process-wide metrics instance that T.Time records its stages into
 	metrics.Init(true)
+	// runs through the real command line are interrupted the way a user does it (SIGINT to this process): a signal
+	// that arrives when no run is listening any more must not end the driver
+	signal.Notify(make(chan os.Signal, 64), os.Interrupt)
 	sub := os.Args[1]
 	fs := flag.NewFlagSet(sub, flag.ExitOnError)
 	c := &ctx{extra: map[string]string{}}
